@@ -241,11 +241,22 @@ func genC07(cw *caseWriter, seed uint64, tier string) {
 		n = 30000
 	}
 	sizesets := [][]int{{1 << 20}, {1}, {3}, {7}, {2, 0, 5}, {64}, {1000}}
+	// template pairs: import-side rejection only; export-side rejection (a line read without error whose
+	// rendering fails, followed by other lines); undeclared keys on both sides
+	pairs := [][2][]colDesc{
+		{ti, to},
+		{nil, {{name: "a", format: "numeric", ty: "none"}}},
+		{{{name: "a", format: "auto", ty: "none"}, {name: "h", format: "hidden", ty: "none"}}, {{name: "a", format: "numeric", ty: "none"}, {name: "b", format: "string", ty: "none"}}},
+	}
 	for i := 0; i < n; i++ {
 		data := randStreamBytes(r, 7)
+		pr := pairs[0]
+		if r.chance(1, 2) {
+			pr = pick(r, pairs)
+		}
 		for _, proc := range []string{"tolerant", "default"} {
 			sz := pick(r, sizesets)
-			emitStream(cw, "C07", ti, to, proc, chunk(data, sz), nil, data, true)
+			emitStream(cw, "C07", pr[0], pr[1], proc, chunk(data, sz), nil, data, true)
 		}
 	}
 	// line lengths around the 64 KiB initial buffer and 1 MiB (10 MiB: thorough)
@@ -316,14 +327,17 @@ func genC08(cw *caseWriter, seed uint64, tier string) {
 		}
 		return append(e, readEv{kind: "d", data: []byte("{}\n")})
 	}()...), nil, nil, true)
+	// over-long line: last without a final newline under the tolerant processor (thorough: first / middle /
+	// last under every processor)
+	big := `{"k":"` + strings.Repeat("x", 10485760) + `"}`
 	if tier == "thorough" {
-		// over-long line first / middle / last
-		big := `{"k":"` + strings.Repeat("x", 10485760) + `"}`
 		for _, data := range []string{big + "\n{\"a\":1}\n", "{\"a\":1}\n" + big + "\n{\"a\":2}\n", "{\"a\":1}\n" + big} {
 			for _, proc := range procs {
 				emitStream(cw, "C08", nil, nil, proc, chunk([]byte(data), []int{1 << 20}), nil, nil, true)
 			}
 		}
+	} else {
+		emitStream(cw, "C08", nil, nil, "tolerant", chunk([]byte("{\"a\":1}\n"+big), []int{1 << 20}), nil, nil, true)
 	}
 }
 
